@@ -12,6 +12,8 @@ mod macros;
 pub mod question;
 pub mod rr;
 mod subtypes;
+#[cfg(feature = "verif")]
+pub mod verif;
 
 pub use decode::{DecodeError, DecodeResult};
 pub use dns::{Dns, Flags};
